@@ -1,7 +1,7 @@
 """C06 - port behaviour: driving-point impedance and Thevenin/Norton equivalents."""
 from __future__ import annotations
 import importlib
-from ..common import CaseResult, Naming, N_SCHEMES, stable_hash, gauss, close, call, exc_sig, ensure_repo_import
+from ..common import CaseResult, Naming, N_SCHEMES, stable_hash, gauss, rat, close, call, exc_sig, ensure_repo_import
 from ..netbuild import build_network, UNITS, role_of, scales, project_network
 from .c01 import tags_of
 from .c16 import items
@@ -17,12 +17,12 @@ RULE = ('scenarios = reachable well-posed networks of MC_C06 (ideal and lossy so
 
 def models(tier, seed):
     if tier == 'quick':
-        return [dict(module='MC_C06.tla', cfg='MC_C06_quick.cfg', batch=100), dict(module='MC_C06.tla', cfg='MC_C06_thm.cfg', batch=100)]
-    return [dict(module='MC_C06.tla', cfg='MC_C06_thorough.cfg', batch=100), dict(module='MC_C06.tla', cfg='MC_C06_thm_thorough.cfg', batch=100)]
+        return [dict(module='MC_C06.tla', cfg='MC_C06_quick.cfg', batch=100), dict(module='MC_C06.tla', cfg='MC_C06_thm.cfg', batch=100), dict(module='MC_C06c.tla', cfg='MC_C06c_quick.cfg', batch=50)]
+    return [dict(module='MC_C06.tla', cfg='MC_C06_thorough.cfg', batch=100), dict(module='MC_C06.tla', cfg='MC_C06_thm_thorough.cfg', batch=100), dict(module='MC_C06c.tla', cfg='MC_C06c_thorough.cfg', batch=50)]
 
 
 def required_tags(tier):
-    return ['has_ideal_v', 'no_ideal_v', 'port:defined', 'port:undefined', 'elem:defined', 'k:open_circuit', 'complex', 'linear_src', 'thevenin', 'norton']
+    return ['has_ideal_v', 'no_ideal_v', 'port:defined', 'port:undefined', 'elem:defined', 'k:open_circuit', 'complex', 'linear_src', 'thevenin', 'norton', 'circuit_sweep', 'resonance', 'dc_resistance']
 
 
 def equivalent_sources():
@@ -30,6 +30,8 @@ def equivalent_sources():
 
 
 def replay(case, ctx):
+    if 'sweep' in case:
+        return replay_circuit(case, ctx)
     br, ref = case['br'], case['ref']
     h = stable_hash([br, ref])
     r = CaseResult(case_id=f'{h:x}')
@@ -125,5 +127,76 @@ def replay(case, ctx):
             judge(f'element_impedance({bid!r}) [branch {k} {b["e"]["k"]}]', got, e, p, 'element_impedance')
         if project_network(net) != before:
             mism.append({'what': 'input network', 'got': 'changed', 'want': 'unchanged', 'signature': 'mutated:network', 'detail': ctxs})
+    r.tags = sorted(tg)
+    return r
+
+
+
+def replay_circuit(case, ctx):
+    """Circuit.impedance.* over a frequency sweep against PortZ of NetAt(circuit, w)"""
+    import numpy as np
+    from ..circbuild import build_circuit
+    from CircuitCalculator.Circuit import impedance as cimp
+    comps = case['comps']
+    h = stable_hash(comps)
+    r = CaseResult(case_id=f'{h:x}')
+    tg = {'circuit_sweep'}
+    naming = Naming(h % N_SCHEMES)
+    mism = r.mismatches
+    built, e = call(build_circuit, comps, naming, 0, (0, 0, 0))
+    if e is not None:
+        mism.append({'what': 'Circuit(...)', 'got': repr(e), 'want': 'accepted', 'signature': f'exc:construct:{exc_sig(e)}', 'detail': ''})
+        return r
+    circuit, ids = built
+    ng = [c for c in comps if c['kind'] != 'ground']
+    sweep = [sw for _, sw in items(case['sweep'])]
+    ws = [float(rat(sw['w'])) for sw in sweep]
+    warr = np.array(ws)
+    kinds = {c['kind'] for c in ng}
+    zmax = 10.0
+    ctxs = f'scheme={naming.scheme} w={ws}'
+    # node pairs
+    pairs = [(p['a'], p['b']) for _, p in items(sweep[0]['z'])]
+    for k, (a, b) in enumerate(pairs):
+        for (x, y, field) in ((a, b, 'r'), (b, a, 'rba')):
+            defined = [j for j, sw in enumerate(sweep) if [p for _, p in items(sw['z'])][k][field]['d']]
+            # the sweep restricted to the frequencies at which the port impedance is defined (one undefined frequency would fail the whole call)
+            gotd, e = call(cimp.open_circuit_impedance, circuit, naming.node(x), naming.node(y), warr[defined]) if defined else (None, None)
+            got = {j: (gotd[n] if e is None else None) for n, j in enumerate(defined)}
+            for j, sw in enumerate(sweep):
+                spec = [p for _, p in items(sw['z'])][k][field]
+                if not spec['d']:
+                    continue
+                want = gauss(spec['z'])
+                r.observations += 1
+                if 'inductance' in kinds and 'capacitor' in kinds and ws[j] == 1.0:
+                    tg.add('resonance')
+                if e is not None or not close(got[j], want, max(abs(want), zmax), rtol=1e-8):
+                    mism.append({'what': f'Circuit.impedance.open_circuit_impedance({naming.node(x)!r},{naming.node(y)!r}) at w={ws[j]}', 'got': repr(e if e is not None else complex(got[j])), 'want': repr(want),
+                                 'signature': 'value:circuit_open_circuit_impedance', 'detail': ctxs})
+                    break
+            if field == 'r' and ws[0] == 0.0:
+                spec0 = [p for _, p in items(sweep[0]['z'])][k]['r']
+                if spec0['d']:
+                    tg.add('dc_resistance')
+                    got0, e0 = call(cimp.open_circuit_dc_resistance, circuit, naming.node(a), naming.node(b))
+                    r.observations += 1
+                    if e0 is not None or not close(got0, gauss(spec0['z']).real, max(abs(gauss(spec0['z'])), zmax)):
+                        mism.append({'what': f'open_circuit_dc_resistance({naming.node(a)!r},{naming.node(b)!r})', 'got': repr(e0 if e0 is not None else got0), 'want': repr(gauss(spec0['z']).real),
+                                     'signature': 'value:circuit_dc_resistance', 'detail': ctxs})
+    for i, c in enumerate(ng):
+        defined = [j for j, sw in enumerate(sweep) if sw['ez'][i]['d']]
+        gotd, e = call(cimp.element_impedance, circuit, ids[c['id']], warr[defined]) if defined else (None, None)
+        got = {j: (gotd[n] if e is None else None) for n, j in enumerate(defined)}
+        for j, sw in enumerate(sweep):
+            spec = sw['ez'][i]
+            if not spec['d']:
+                continue
+            want = gauss(spec['z'])
+            r.observations += 1
+            if e is not None or not close(got[j], want, max(abs(want), zmax), rtol=1e-8):
+                mism.append({'what': f'Circuit.impedance.element_impedance({ids[c["id"]]!r}) at w={ws[j]}', 'got': repr(e if e is not None else complex(got[j])), 'want': repr(want),
+                             'signature': 'value:circuit_element_impedance', 'detail': ctxs})
+                break
     r.tags = sorted(tg)
     return r
